@@ -42,6 +42,9 @@ pub struct PqCfg {
     pub offset_index_disabled: bool,
     pub reader_batch: usize,
     pub page_index: bool,
+    /// 0: writer defaults; otherwise a per-column non-default encoding is chosen (by column index and this salt)
+    /// for top-level primitive / byte-array columns
+    pub enc_salt: u8,
 }
 
 impl PqCfg {
@@ -60,7 +63,34 @@ impl PqCfg {
             offset_index_disabled: ctx.chance(1, 6, "pq.nooffsetindex"),
             reader_batch: *ctx.pick(&[1024, 1, 2, 3, 7, 100], "pq.readbatch"),
             page_index: ctx.chance(1, 3, "pq.pageindex"),
+            enc_salt: if ctx.chance(1, 2, "pq.encodings") { 1 + ctx.draw(200, "pq.enc_salt") as u8 } else { 0 },
         }
+    }
+    /// Writer properties with per-column encodings for the top-level columns of `schema`.
+    pub fn props_for(&self, schema: &arrow_schema::Schema) -> WriterProperties {
+        use arrow_schema::DataType as D;
+        use parquet::basic::Encoding as E;
+        use parquet::schema::types::ColumnPath;
+        if self.enc_salt == 0 {
+            return self.props();
+        }
+        let mut b = self.props().into_builder();
+        for (i, f) in schema.fields().iter().enumerate() {
+            let pick = (self.enc_salt as usize + i * 7) % 4;
+            let enc = match f.data_type() {
+                D::Int32 | D::Int64 | D::Date32 | D::Timestamp(_, _) | D::UInt32 | D::UInt64 | D::Int8 | D::Int16 | D::UInt8 | D::UInt16 => [Some(E::DELTA_BINARY_PACKED), Some(E::PLAIN), Some(E::BYTE_STREAM_SPLIT), None][pick],
+                D::Float32 | D::Float64 => [Some(E::BYTE_STREAM_SPLIT), Some(E::PLAIN), None, Some(E::BYTE_STREAM_SPLIT)][pick],
+                D::Utf8 | D::LargeUtf8 | D::Binary | D::LargeBinary | D::Utf8View | D::BinaryView => [Some(E::DELTA_LENGTH_BYTE_ARRAY), Some(E::DELTA_BYTE_ARRAY), Some(E::PLAIN), None][pick],
+                D::FixedSizeBinary(_) | D::Decimal128(_, _) => [Some(E::BYTE_STREAM_SPLIT), Some(E::PLAIN), Some(E::DELTA_BYTE_ARRAY), None][pick],
+                D::Boolean => [Some(E::RLE), Some(E::PLAIN), None, Some(E::RLE)][pick],
+                _ => None,
+            };
+            if let Some(e) = enc {
+                let path = ColumnPath::from(f.name().as_str());
+                b = b.set_column_dictionary_enabled(path.clone(), false).set_column_encoding(path, e);
+            }
+        }
+        b.build()
     }
     pub fn props(&self) -> WriterProperties {
         let codec = match self.codec {
@@ -151,7 +181,7 @@ impl Fmt for PqFmt {
     }
     fn write(&self, _ctx: &Ctx, sink: SimSink, post: Post) -> WOut {
         set_component("parquet.arrow_writer");
-        let mut w = match ArrowWriter::try_new(sink, self.wl.schema.clone(), Some(self.cfg.props())) {
+        let mut w = match ArrowWriter::try_new(sink, self.wl.schema.clone(), Some(self.cfg.props_for(&self.wl.schema))) {
             Ok(w) => w,
             Err(e) => return WOut::fail("try_new", e),
         };
